@@ -39,14 +39,15 @@ Section Lib.
     | T_ALIAS => v <> VL []                               (* no field is dumped under a JSON path *)
     | T_PATH => False                                     (* no JSON-path entry *)
     | T_OBJ => v = VN 1                                   (* every set/dict object mirrors os.environ *)
-    | T_VARNAMES | T_CLEANED => exists a, v = VN a
+    | T_VARNAMES | T_CLEANED | T_ENVIRON => exists a, v = VN a   (* a reference to a set / dict object *)
     | _ => True
     end.
 
   (* publication order: what is present whenever an entry holds a value *)
   Definition Imp_lib (T : tab) (k : key) (v : val) : list (tab * key) :=
     match T, v with
-    | T_VARNAMES, VN a | T_CLEANED, VN a => [(T_OBJ, a)]      (* the object exists before it is published *)
+    | T_VARNAMES, VN a | T_CLEANED, VN a | T_ENVIRON, VN a => [(T_OBJ, a)]
+                                                      (* the object is complete before the reference to it is published *)
     | T_DEFREG, VN o => map (fun i => (T_DEFAULTS o, i)) DF   (* the defaults dict is complete when published *)
     | T_V1FLAG, _ => [(T_V1ALIAS, K_CATCH_ALL)]               (* the set-up flag is set after the alias table is filled *)
     | _, _ => []
@@ -350,21 +351,39 @@ Section Lib.
     - intros v (o & skip & -> & Hs). now apply M_run_dump_fn.
   Qed.
 
-  (* EnvWizard.__init__: environ, Env.var_names, Env.cleaned_to_env; with and without _reload *)
-  Lemma M_p_load_environ : forall tid K c r,
-    (forall K', incl K K' -> In (T_ENVIRON, 0) K' -> M K' c r) -> M K (p_load_environ tid false c) r.
+  (* EnvWizard.__init__: environ, Env.var_names, Env.cleaned_to_env; with and without _reload.
+     Everything that forces a reload needs the REBIND protocol (env_inplace fx = false). *)
+  Lemma M_p_env_content : forall K c r, In (T_ENVIRON, 0) K ->
+    (forall K', incl K K' -> M K' (c 1) r) -> M K (p_env_content c) r.
   Proof.
-    intros tid K c r Hc. unfold p_load_environ. apply MP_rd.
+    intros K c r He Hc. unfold p_env_content. apply M_rd_known; [assumption|].
+    intros e [eo ->]. cbn [Imp_lib app]. apply M_rd_known; [now left|].
+    intros v Hv. cbn [R_lib] in Hv. subst v. cbn [content Imp_lib app]. apply Hc. inc.
+  Qed.
+
+  Lemma M_p_env_get : forall K c r, In (T_ENVIRON, 0) K ->
+    (forall K', incl K K' -> M K' c r) -> M K (p_env_get c) r.
+  Proof.
+    intros K c r He Hc. unfold p_env_get. apply M_p_env_content; [assumption|].
+    intros K' Hi. cbn [Nat.eqb]. now apply Hc.
+  Qed.
+
+  Lemma M_p_load_environ : forall fx tid K c r,
+    (forall K', incl K K' -> In (T_ENVIRON, 0) K' -> M K' c r) -> M K (p_load_environ fx tid false c) r.
+  Proof.
+    intros fx tid K c r Hc. unfold p_load_environ. apply MP_rd.
     - intros _ _. cbn [is_some negb orb]. apply MP_yield.
-      apply MP_wr; [exact I | inc |]. apply Hc; [inc | now left].
-    - intros v _. cbn [is_some negb orb Imp_lib app]. apply Hc; [inc | now left].
+      apply MP_wr; [reflexivity | inc |].
+      apply MP_wr; [now eexists | cbn [Imp_lib]; intros x [<-|[]]; now left |].
+      apply Hc; [inc | now left].
+    - intros v _. cbn [is_some negb orb]. apply Hc; [inc | apply in_or_app; right; now left].
   Qed.
 
   Lemma M_p_varnames : forall oid K c r, In (T_ENVIRON, 0) K ->
     (forall a K', incl K K' -> In (T_OBJ, a) K' -> M K' (c a) r) -> M K (p_varnames oid c) r.
   Proof.
     intros oid K c r He Hc. unfold p_varnames. apply MP_rd.
-    - intros _ _. apply MP_yield. apply M_rd_known; [assumption|]. intros e _. cbn [is_some Imp_lib app].
+    - intros _ _. apply MP_yield. apply M_p_env_content; [assumption|]. intros K1 H1.
       apply MP_wr; [reflexivity | inc |].
       apply MP_wr; [now exists oid | cbn [Imp_lib]; intros x [<-|[]]; now left |].
       apply Hc; [inc | right; now left].
@@ -375,7 +394,8 @@ Section Lib.
     (forall K', incl K K' -> M K' (c 1) r) -> M K (p_member oid c) r.
   Proof.
     intros oid K c r He Hc. unfold p_member. apply M_p_varnames; [assumption|].
-    intros a K' Hi Ha. apply M_rd_known; [assumption|]. intros v ->. cbn [content Imp_lib app]. apply Hc. inc.
+    intros a K' Hi Ha. apply M_rd_known; [assumption|].
+    intros v Hv. cbn [R_lib] in Hv. subst v. cbn [content Imp_lib app]. apply Hc. inc.
   Qed.
 
   Lemma M_p_cleaned : forall tid K c r, In (T_ENVIRON, 0) K ->
@@ -390,51 +410,68 @@ Section Lib.
     - intros v [a ->]. cbn [Imp_lib app]. apply Hc; [inc | now left].
   Qed.
 
-  Lemma M_p_load_environ_force : forall tid K c r, In (T_ENVIRON, 0) K ->
-    (forall K', incl K K' -> M K' c r) -> M K (p_load_environ tid true c) r.
+  Lemma M_p_load_environ_force : forall fx tid K c r, env_inplace fx = false -> In (T_ENVIRON, 0) K ->
+    (forall K', incl K K' -> In (T_ENVIRON, 0) K' -> M K' c r) -> M K (p_load_environ fx tid true c) r.
   Proof.
-    intros tid K c r He Hc. unfold p_load_environ. apply M_rd_known; [assumption|].
-    intros e _. cbn [is_some negb orb Imp_lib app]. apply MP_yield.
-    apply MP_wr; [exact I | inc |].
+    intros fx tid K c r Hfx He Hc. unfold p_load_environ. apply M_rd_known; [assumption|].
+    intros e [eo ->]. cbn [is_some negb orb Imp_lib app]. apply MP_yield. rewrite Hfx.
     apply MP_wr; [reflexivity | inc |].
     apply MP_wr; [now eexists | cbn [Imp_lib]; intros x [<-|[]]; now left |].
-    apply M_rd_any; [|reflexivity]. intros K1 acc H1.
-    destruct (is_some acc); [|apply Hc; inc].
-    apply M_p_member; [apply H1; do 4 right; exact He|]. intros K2 H2.
+    apply M_p_env_content; [now left|]. intros K1 H1.
+    assert (He1 : In (T_ENVIRON, 0) K1) by (apply H1; now left).
     apply MP_wr; [reflexivity | inc |].
     apply MP_wr; [now eexists | cbn [Imp_lib]; intros x [<-|[]]; now left |].
-    apply Hc. inc.
+    apply M_rd_any; [|reflexivity]. intros K2 acc H2.
+    assert (He2 : In (T_ENVIRON, 0) K2) by (apply H2; do 2 right; exact He1).
+    destruct (is_some acc); [|apply Hc; [inc | assumption]].
+    apply M_p_member; [assumption|]. intros K3 H3.
+    apply MP_wr; [reflexivity | inc |].
+    apply MP_wr; [now eexists | cbn [Imp_lib]; intros x [<-|[]]; now left |].
+    apply Hc; [inc | do 2 right; now apply H3].
   Qed.
 
-  Lemma M_p_reload : forall tid K c r,
-    (forall K', incl K K' -> In (T_ENVIRON, 0) K' -> M K' c r) -> M K (p_reload tid c) r.
+  Lemma M_p_reload : forall fx tid K c r, env_inplace fx = false ->
+    (forall K', incl K K' -> In (T_ENVIRON, 0) K' -> M K' c r) -> M K (p_reload fx tid c) r.
   Proof.
-    intros tid K c r Hc. unfold p_reload. apply M_p_load_environ. intros K1 H1 He.
+    intros fx tid K c r Hfx Hc. unfold p_reload. apply M_p_load_environ. intros K1 H1 He.
     apply M_p_varnames; [assumption|]. intros a K2 H2 Ha.
-    apply M_p_load_environ_force; [now apply H2|]. intros K3 H3.
-    apply M_rd_known; [now apply H3|]. intros old Hold. cbn [R_lib] in Hold. subst old. cbn [Imp_lib app content Nat.eqb].
-    apply MP_wr; [reflexivity | inc |].
-    apply M_rd_any; [|reflexivity]. intros K4 acc H4.
-    assert (He4 : In (T_ENVIRON, 0) K4) by (apply H4; do 2 right; apply H3, H2, He).
-    destruct (is_some acc).
-    - apply M_p_cleaned; [assumption|]. intros cobj K5 H5 Hco.
-      apply M_rd_known; [assumption|]. intros cc Hcc. cbn [R_lib] in Hcc. subst cc. cbn [content Imp_lib app Nat.eqb].
-      apply MP_wr; [reflexivity | inc |]. apply Hc; [inc | right; right; now apply H5].
-    - apply Hc; [inc | assumption].
+    apply M_p_load_environ_force; [assumption | now apply H2 |]. intros K3 H3 He3.
+    apply M_rd_known; [now apply H3|]. intros old Hold. cbn [R_lib] in Hold. subst old.
+    cbn [Imp_lib app content Nat.eqb].
+    assert (Hupd : forall K', incl K3 K' ->
+              M K' (Wr T_OBJ a (VN 1)
+                     (Rd T_ACCESSED 0 (fun acc =>
+                        if is_some acc
+                        then p_cleaned tid (fun cobj => Rd T_OBJ cobj (fun cc =>
+                               (if h2b fx then Yield Y_env_cleaned_update else fun k : prog => k)
+                                 (Wr T_OBJ cobj (VN (content cc)) c)))
+                        else c))) r).
+    { intros K' Hi. apply MP_wr; [reflexivity | inc |].
+      apply M_rd_any; [|reflexivity]. intros K4 acc H4.
+      assert (He4 : In (T_ENVIRON, 0) K4) by (apply H4; right; apply Hi, He3).
+      destruct (is_some acc).
+      - apply M_p_cleaned; [assumption|]. intros cobj K5 H5 Hco.
+        apply M_rd_known; [assumption|]. intros cc Hcc. cbn [R_lib] in Hcc. subst cc. cbn [content Imp_lib app].
+        assert (Hw : forall K6, incl K5 K6 -> M K6 (Wr T_OBJ cobj (VN 1) c) r).
+        { intros K6 H6. apply MP_wr; [reflexivity | inc |]. apply Hc; [inc | right; apply H6, H5, He4]. }
+        destruct (h2b fx); [apply MP_yield|]; apply Hw; inc.
+      - apply Hc; [inc | assumption]. }
+    destruct (h2b fx); [apply MP_yield|]; apply Hupd; inc.
   Qed.
 
-  Theorem env_plain : forall tid reload K, M K (call_env tid reload) [OSeq].
+  Theorem env_plain : forall fx tid reload K, env_inplace fx = false -> M K (call_env fx tid reload) [OSeq].
   Proof.
-    intros tid reload K. unfold call_env.
+    intros fx tid reload K Hfx. unfold call_env.
     assert (Hlook : forall K', In (T_ENVIRON, 0) K' ->
               M K' (p_member (10 * tid + 1) (fun c1 =>
-                     if Nat.eqb c1 1 then Ret [OSeq]
+                     if Nat.eqb c1 1 then p_env_get (Ret [OSeq])
                      else p_member (10 * tid + 1) (fun _ =>
                             p_cleaned tid (fun cobj => Rd T_OBJ cobj (fun cc =>
-                              Ret [if Nat.eqb (content cc) 1 then OSeq else OErr EMissingVars]))))) [OSeq]).
-    { intros K' He. apply M_p_member; [assumption|]. intros K2 H2. cbn [Nat.eqb]. constructor. }
+                              if Nat.eqb (content cc) 1 then p_env_get (Ret [OSeq]) else Ret [OErr EMissingVars]))))) [OSeq]).
+    { intros K' He. apply M_p_member; [assumption|]. intros K2 H2. cbn [Nat.eqb].
+      apply M_p_env_get; [now apply H2|]. intros K3 _. constructor. }
     destruct reload.
-    - apply M_p_reload. intros K1 H1 He. now apply Hlook.
+    - apply M_p_reload; [assumption|]. intros K1 H1 He. now apply Hlook.
     - apply M_p_load_environ. intros K1 H1 He. now apply Hlook.
   Qed.
 
@@ -462,22 +499,23 @@ Section Lib.
 
   (* ------------------------------------------------------------ whole threads *)
   (* the safe region: EVERY call, provided the class has no JSON-path field (F31) *)
-  Definition safe_call (c : call) : Prop :=
+  Definition safe_call (fx : fixes) (c : call) : Prop :=
     match c with
     | CLoad _ | CDump _ => no_paths
-    | CEnv _ | CV1Load => True
+    | CEnv _ => env_inplace fx = false     (* the REBIND protocol of Env.load_environ *)
+    | CV1Load => True
     end.
 
-  Lemma M_call : forall fx tid c K, safe_call c -> M K (call_prog fx tid cd c) [OSeq].
+  Lemma M_call : forall fx tid c K, safe_call fx c -> M K (call_prog fx tid cd c) [OSeq].
   Proof.
     intros fx tid [ks|vals|reload|] K H; cbn [call_prog safe_call] in *.
     - now apply load_plain.
     - now apply dump_plain.
-    - apply env_plain.
+    - now apply env_plain.
     - apply v1_catchall_plain.
   Qed.
 
-  Lemma M_thread : forall fx tid cs K, Forall safe_call cs ->
+  Lemma M_thread : forall fx tid cs K, Forall (safe_call fx) cs ->
     M K (thread_prog fx tid cd cs) (repeat OSeq (List.length cs)).
   Proof.
     intros fx tid cs. induction cs as [|c cs IH]; intros K H; cbn [thread_prog List.length repeat].
@@ -487,7 +525,7 @@ Section Lib.
       eapply memo_bind; [now apply IH|]. intros K2 Hi2. cbn [app]. constructor.
   Qed.
 
-  Lemma M_threads : forall fx pss tid, Forall (Forall safe_call) pss ->
+  Lemma M_threads : forall fx pss tid, Forall (Forall (safe_call fx)) pss ->
     Forall2 (fun p r => M [] p r) (thread_progs fx tid cd pss) (map (fun cs => repeat OSeq (List.length cs)) pss).
   Proof.
     intros fx pss. induction pss as [|cs pss IH]; intros tid H; cbn [thread_progs map]; constructor.
@@ -510,7 +548,7 @@ Section Lib.
   (* every call of every thread returns its sequential result, under every schedule *)
   Theorem lib_linearizable :
     forall (fx : fixes) (pss : list (list call)),
-      Forall (Forall safe_call) pss ->
+      Forall (Forall (safe_call fx)) pss ->
       forall (sched : list nat) (i : nat) (t : thread) (os : list outcome),
         nth_error (snd (run sched (scenario fx cd pss))) i = Some t ->
         finished t = Some os ->
@@ -541,7 +579,7 @@ Definition sequential2 : list nat := repeat 0 400 ++ repeat 1 400.
 Definition sequential2' : list nat := repeat 1 400 ++ repeat 0 400.
 
 (* the proposed repair of F31 switched on *)
-Definition f31_fixed : fixes := mkX true.
+Definition f31_fixed : fixes := mkX true false false.
 Definition fixed_path_dump : config := scenario f31_fixed cd_paths2 [[CDump [VTBase 1; VTBase 1]]; [CDump [VTBase 1; VTBase 1]]].
 Definition fixed_path_load : config := scenario f31_fixed cd_paths2 [[CLoad [KPathTop]]; [CLoad [KPathTop]]].
 Definition replay_on (seg : list nat) (c : config) : list (option (list outcome)) :=
@@ -558,3 +596,8 @@ Definition cfg_v1_catchall : config := scenario no_fixes cd_any1 [[CV1Load]; [CV
 Definition seg_v1_catchall : list nat := [0; 0; 0; 1; 1; 1; 1; 0; 0].
 Definition cfg_env_reload : config := scenario no_fixes cd_any1 [[CEnv false]; [CEnv true]].
 Definition seg_env_reload : list nat := [1; 1; 0; 0; 0; 0; 1; 1].
+
+(* In-place refill of `environ` (NOT the current tree; e.g. seeded change C20-3): the reader that
+   passed `name in Env.var_names` finds the dict transiently empty. *)
+Definition inplace_env : fixes := mkX false true false.
+Definition cfg_env_inplace : config := scenario inplace_env cd_any1 [[CEnv false]; [CEnv true]].
